@@ -27,6 +27,8 @@ def decl_specs(tier):
         specs.append({'P': P, 'tag': 'wide-bits'})
         P = ir.PKT('K', [('h', ir.I(1))] + [('b%d' % i, ir.B(w)) for i, w in enumerate(widths)], generate_for_unpack=False)
         specs.append({'P': P, 'tag': 'wide-bits'})
+    for c in ('i1', 'i3', 'dn', 'm0', 'b35', 'sn', 'su', 'sr', 'o1', 'r1', 'rs', 'sdn'):
+        specs.append({'names': [c], 'wrapper': 'd'})
     specs.extend(alphabet.families())
     return specs
 
